@@ -336,9 +336,14 @@ def oracle(ctx, extra):
     # threads on a shared instance
     tcount = 0
     if len(fails) < 5:
-        for name in ("html-all", "fenced-directives", "rst", "toc-hook"):
+        for name in ("html-all", "fenced-directives", "rst-directives", "rst", "toc-hook"):
             md = convs[name]()
             docs = history_docs(r, 24)
+            if "directives" in name:
+                # long documents with a table of contents: their block and render phases overlap between threads
+                style = "```{toc}\n```\n" if name.startswith("fenced") else ".. toc::\n"
+                for j in range(0, 24, 3):
+                    docs[j] = "".join("# H%d-%d\n\ntext *%d*\n\n## S%d\n\n- a\n- b\n\n" % (j, i, i, i) for i in range(60)) + style + "\n# end %d\n" % j
             want = [pristine().ref(name, d) for d in docs]
             got = [None] * len(docs)
 
@@ -366,7 +371,7 @@ def oracle(ctx, extra):
                     "setext/atx headings with toc hook/directive, images with the RST renderer, nested directives up to the "
                     "depth limit; 45% generated; for the fenced-directive configuration 40% pages converted with a file context that include the same Markdown files and define the references those files use) on one converter vs a fresh converter per document in a forked pristine process (so module-level leaks show too), for 11 configurations; "
                     "md.use(plugin) in the middle of a history; the shared mistune.html and cached mistune.markdown(); 8 "
-                    "threads on a shared instance with a 10us switch interval; non-trivial = every history (length >= 2)",
+                    "threads on a shared instance with a 10us switch interval (for the directive configurations a third of the documents are long, with a table of contents); non-trivial = every history (length >= 2)",
             "samples": [json.dumps(history_docs(r, 2))]}
 
 
